@@ -321,7 +321,12 @@ func doPlan(strat, kind string, g *Group) (Asg, map[string]string) {
 			bad = bad || m.UD.Kind == "bad"
 		}
 		expectErr := (strat == "sticky" && bad) || (strat == "rr" && (len(g.Members) == 0 || len(g.Topics) == 0))
-		run.Emit(op, st)
+		if strat == "sticky" && st == "diverges" {
+			// the op-level sticky model has no executable counterpart of a run that does not end: oracle only
+			run.Case(op + "  =>  diverges")
+		} else {
+			run.Emit(op, st)
+		}
 		if st == "panic" {
 			run.IOFail(strat+"-panic", op, "Plan panicked: "+lastPanic)
 		} else if st == "err" && !expectErr && PROP == "C08" {
@@ -375,6 +380,13 @@ func doPlan(strat, kind string, g *Group) (Asg, map[string]string) {
 			for _, t := range g.Topics {
 				if !g.hasSubscriber(t.Name) {
 					cls = "/topic-without-subscriber"
+				}
+			}
+			for i := range g.Members {
+				for _, t := range g.Members[i].Topics {
+					if cls == "" && listedTwice(&g.Members[i], t) {
+						cls = "/topic-listed-twice"
+					}
 				}
 			}
 			fail("sticky-join-shuffled"+cls, "a partition moved between old members when a member joined")
